@@ -289,6 +289,14 @@ example : (solverRun (validCells [3]) (.explicit .euler) (consRate .polar [3] (1
       (1 / 64) 0 (1 / 32) [1, 4, 9]).map (fun r => (decide (r.1 = [1, 4, 9]), cellMass .polar [3] (1 : Rat) [1 / 2] r.1))
     = some (false, cellMass .polar [3] (1 : Rat) [1 / 2] [1, 4, 9]) := by decide +kernel
 
+/-- the controller loop with a rounding step count (2.25 dt = 2 + 1 steps), Crank-Nicolson with damping 1/4, on a 2 × 2
+Cartesian grid periodic in `y`: the run returns after 3 steps, the state changed, the total is the same -/
+example : (solverRuns (validCells [2, 2]) (.crankNicolson (1 / 4) 100 (1 / 1024))
+      (consRate .cart [2, 2] (0 : Rat) [1 / 2, 1] [false, true] (muDiffusion (1 / 2)))
+      (1 / 256) (9 / 1024) (1 / 256000000) 16 0 [1, 4, -2, 0] 0).map
+        (fun r => (decide (r.1 = [1, 4, -2, 0]), r.2.2, cellMass .cart [2, 2] (0 : Rat) [1 / 2, 1] r.1))
+    = some (false, 3, cellMass .cart [2, 2] (0 : Rat) [1 / 2, 1] [1, 4, -2, 0]) := by decide +kernel
+
 end radialruns
 
 /-! ## boundary-flux identities of the divergence (arbitrary ghost cells, every variant of the difference) -/
